@@ -9,7 +9,7 @@
    BaseException pooled calculate never returns - known finding
    C20 pooled:non-Exception-interrupt-hangs, exhibited by [pooled_non_exception_hangs]. *)
 From Coq Require Import ZArith List Bool Permutation.
-From Catii Require Import Base.Cases Conc.Interleave Conc.Pool Conc.Interrupt Conc.ConcProofs.
+From Catii Require Import Base.Cases Conc.Interleave Conc.Pool Conc.Interrupt Conc.ConcProofs Conc.Check Conc.CheckSound.
 Import ListNotations.
 
 (* find_first p n is the least index below n at which p holds *)
@@ -34,7 +34,7 @@ Theorem serial_outcome : forall (V R : Type) (cu : cube V R) (raises : nat -> na
             r_log rep = diag_log (nsub cu) /\
             r_diag rep = fold_left (bump cu) (seq 0 (nsub cu)) (entered V R cu d)
   end.
-Proof. intros V R cu raises d. exact (serial_outcome_from V R cu raises (c_init cu) d). Qed.
+Proof. exact (fun V R cu raises d => serial_outcome_from V R cu raises (c_init cu) d). Qed.
 Print Assumptions serial_outcome.
 
 (* pooled mode: for EVERY partition of the sub-cubes into batches, EVERY schedule of the batches
@@ -123,6 +123,22 @@ Theorem reuse : forall (V R : Type) (cu : cube V R) (first : report R),
   Returned (reduce_with (c_cells cu) (c_reduce cu) (run (concat (c_tasks cu)) (c_init cu))).
 Proof. exact reuse_after_any_call. Qed.
 Print Assumptions reuse.
+
+(* the tie: a serial correspondence case (p = 0) on which the executable checker of Conc/Check.v evaluates
+   to true is an observation of the real code that satisfies the property text literally - the exception
+   object that came out is the one raised at the least raising invocation i, after exactly i+1 consultations
+   (sub-cubes 0..i in order); nothing raised => returned after consulting every sub-cube once, in order;
+   and the observed flags (returned result = fresh evaluation, follow-up calculate on the SAME objects =
+   fresh evaluation) are true *)
+Theorem serial_case_checker_sound : forall k T N log obs costs nfills resets d0 d1 flags,
+  c20_check (0%Z, k, (T, N), log, obs, (costs, nfills, resets), (d0, d1), flags) = true ->
+  flags = true /\
+  match find_first (fun i => oracle T N i i) (Z.to_nat k) with
+  | Some i => obs = Some (Z.of_nat i, Z.of_nat i) /\ log = map nn_to_zz (diag_log (S i))
+  | None => obs = None /\ log = map nn_to_zz (diag_log (Z.to_nat k))
+  end.
+Proof. exact c20_serial_case_sound. Qed.
+Print Assumptions serial_case_checker_sound.
 
 (* what is false, with witnesses: regions kept on the object between calls; an interrupt that is
    not an Exception in pooled mode (known finding) *)
